@@ -86,6 +86,8 @@ def _te_predicate(repo, c):
 
 
 def run(ctx: Ctx) -> None:
+    if getattr(ctx, "_depth", 0) >= 2:
+        return  # alias of an alias: not followed (breaks import cycles between rule modules)
     repo = ctx.repo
     ctx.rule("C02.R2", "suppress_body(method, status) is true exactly for HEAD, 1xx, 204 and 304 (table over status 100..599 x {HEAD, GET, POST})", floor=1)
     ctx.rule("C02.R3", "every response Body emission is guarded by `not suppress_body(<request method>, <response status>)` with exactly those arguments", floor=2)
@@ -263,6 +265,10 @@ def run(ctx: Ctx) -> None:
     from . import c18
 
     c18.run(Alias(ctx, "C02.R12", "HTTP/2: the connection is closed for the request maximum only when it is strictly exceeded - closing it on the last permitted request discards that request's response and every response still in flight (C18.R2 on H2Protocol._handle_events)", only={"C18.R2"}, where=["H2Protocol._handle_events"]))
+    from . import c07, c12
+
+    c07.run(Alias(ctx, "C02.R14", "the keep-alive timer cannot fire in the middle of a response: the single-task helpers replace / cancel the timer atomically under their lock (C07.R8)", only={"C07.R8"}))
+    c12.run(Alias(ctx, "C02.R13", "application headers reach the wire exactly as given, whatever iterable carries them: the validator is interpreted on lists AND one-shot iterators (C12.R5)", only={"C12.R5"}))
     c19.run(Alias(ctx, "C02.R7b", "the server's own headers are date (RFC 7231 date of now), server and alt-svc, exactly under their switches, in that order (C19.R6)", only={"C19.R6"}))
     ctx.assume("not decided: that h11/h2 serialise those events into bytes a client parses back identically; chunked vs content-length framing chosen inside h11; byte-level flow control (C09)")
     from . import typestate_rules
